@@ -116,6 +116,25 @@ Theorem C10b_use_after_release_row_rejected :
 Proof. exact drf_ok_rejects_unlocked_read_of_locked_write. Qed.
 Print Assumptions C10b_use_after_release_row_rejected.
 
+(* ---- caller memory that outlives the call (rule ESCAPING-CALLER-MEMORY) ---- *)
+
+(* the rule prints the caller's next write to a retained parameter as a write row of class any without a
+   lock; every such row (any non-atomic writer of class any with no exclusively held lock) is rejected *)
+Theorem C10b_escaping_caller_memory_row_rejected :
+  forall t r, In r t -> (r_kind r = KWrite \/ r_kind r = KRmw) -> r_class r = CAny ->
+  (forall l m, In (l, m) (r_locks r) -> m = LR) ->
+  drf_ok t = false.
+Proof. exact drf_ok_rejects_write_any_without_exclusive_lock. Qed.
+Print Assumptions C10b_escaping_caller_memory_row_rejected.
+
+(* what acceptance guarantees: every non-atomic writing row that any thread may execute holds some lock
+   exclusively *)
+Theorem C10b_accepted_writer_holds_exclusive_lock :
+  forall t r, drf_ok t = true -> In r t -> (r_kind r = KWrite \/ r_kind r = KRmw) -> r_class r = CAny ->
+  exists l, In (l, LW) (r_locks r).
+Proof. exact drf_ok_write_any_has_exclusive_lock. Qed.
+Print Assumptions C10b_accepted_writer_holds_exclusive_lock.
+
 (* ---- the instance on the regenerated table (partial: rests on the faithfulness of the table) ---- *)
 
 Theorem C10b_interceptors_race_free_split_partial :
